@@ -654,10 +654,12 @@ package tchannel
 //@ pred MexSetOK(s *messageExchangeSet) := s != nil && s.log != nil && s.onRemoved != nil && s.onAdded != nil && s.exchanges != nil && s.expiredExchanges != nil
 //@ pred MexSetInv(s *messageExchangeSet) := forall k uint32 :: has(s.exchanges, k) ==> s.exchanges[k] != nil && s.exchanges[k].msgID == k
 
+// The exchange-set callbacks re-evaluate connection/channel/peer state; they
+// never touch exchanges, fragments, frames or read buffers (assumed, T4).
 //@ funcfield messageExchangeSet.onRemoved()
-//@   modifies all
+//@   modifies allbut errAttempts, readableFragment, Frame, messageExchangeSet, messageExchange, typed.ReadBuffer, cs
 //@ funcfield messageExchangeSet.onAdded()
-//@   modifies all
+//@   modifies allbut errAttempts, readableFragment, Frame, messageExchangeSet, messageExchange, typed.ReadBuffer, cs
 //@ funcfield messageExchangeSet.onCancel(id uint32)
 //@   modifies all
 
@@ -694,7 +696,7 @@ package tchannel
 
 //@ func (mexset *messageExchangeSet) removeExchange(msgID uint32)
 //@   requires MexSetOK(mexset)
-//@   modifies all
+//@   modifies allbut errAttempts
 //@   property C04 C10
 
 //@ func (mexset *messageExchangeSet) expireExchange(msgID uint32)
@@ -704,7 +706,7 @@ package tchannel
 
 //@ func (mex *messageExchange) shutdown()
 //@   requires MexSetOK(mex.mexset)
-//@   modifies all
+//@   modifies allbut errAttempts
 //@   property C04 C10
 
 // A frame is only ever offered to the exchange registered under the frame's own id.
@@ -880,7 +882,8 @@ package tchannel
 // stays inside the declared payload size.
 //@ func parseInboundFragment(framePool FramePool, frame *Frame, message message) (fragment *readableFragment, err error)
 //@   requires FrameFull(frame) && frame.Header.size >= 16 && message != nil
-//@   modifies all
+//@   modifies allbut Connection, Channel, Frame, messageExchangeSet, messageExchange, errAttempts, cs, bytes
+//@   defines decodefails(frame) <==> err != nil
 //@   label unknown-checksum-type-rejected
 //@   ensures err == nil ==> RF(fragment) && !fragment.isDone
 //@   label contents-inside-declared-payload
@@ -1012,3 +1015,92 @@ package tchannel
 //@   loop 0 invariant r.receiver == old(r.receiver) && r.state == fragmentingReadWaitingForArgument && r.err == nil
 //@   loop 0 invariant nrecv(r.receiver) >= old(nrecv(r.receiver)) && old(r.hasMoreFragments) && (r.curFragment != nil ==> r.curFragment.onDone != nil)
 //@   property C01 C03
+
+// ===========================================================================
+// connection.go / channel.go -- close state machines (C07)
+// The reported state only ever moves forward, under every interleaving: each
+// atomic block that writes the state is checked against the two-state history
+// clause of the monitor guarding it.
+// ===========================================================================
+
+//@ monitor (c *Connection) stateMut guards state
+//@   label connection-state-in-range
+//@   invariant 1 <= c.state && c.state <= 4
+//@   label connection-state-only-moves-forward
+//@   history c.state >= old(c.state)
+
+//@ monitor (ch *Channel) mutable.RWMutex guards mutable.state
+//@   label channel-state-in-range
+//@   invariant 1 <= ch.mutable.state && ch.mutable.state <= 5
+//@   label channel-state-only-moves-forward
+//@   history ch.mutable.state >= old(ch.mutable.state)
+
+//@ func (c *Connection) readState() (s connectionState)
+//@   modifies c.state
+//@   ensures 1 <= s && s <= 4
+//@   property C07
+
+//@ func (ch *Channel) State() (s ChannelState)
+//@   modifies ch.mutable.state
+//@   ensures 1 <= s && s <= 5
+//@   property C07
+
+// close: only Active -> StartClose; any other state is an error and the state is left alone.
+//@ func (c *Connection) close(fields ...LogField) (err error)
+//@   nosafety
+//@   modifies allbut errAttempts
+//@   property C07
+
+//@ func (c *Connection) checkExchanges()
+//@   nosafety
+//@   modifies allbut errAttempts
+//@   property C07
+
+//@ func (ch *Channel) Close()
+//@   nosafety
+//@   modifies all
+//@   property C07
+
+//@ func (ch *Channel) connectionCloseStateChange(c *Connection)
+//@   nosafety
+//@   modifies all
+//@   property C07
+
+//@ func (ch *Channel) Serve(l net.Listener) (err error)
+//@   nosafety
+//@   modifies all
+//@   property C07
+
+// ===========================================================================
+// inbound.go / outbound.go -- admission while closing (C07, C20)
+// errAttempts(c) counts attempts to send an error frame on connection c;
+// decodefails(frame) says the call req in `frame` could not be decoded.
+// ===========================================================================
+
+//@ ghostfield errAttempts
+//@ ghost func decodefails(f *Frame) bool
+
+//@ func (c *Connection) SendSystemError(id uint32, span Span, err error) (sendErr error)
+//@   nosafety
+//@   modifies all
+//@   defines errAttempts(c) == old(errAttempts(c)) + 1
+//@   property C07 C20
+
+//@ func (c *Connection) protocolError(id uint32, err error) (e error)
+//@   nosafety
+//@   modifies all
+//@   ensures errAttempts(c) == old(errAttempts(c)) + 1
+//@   property C07 C20
+
+// Every call request is either dispatched (no error frame), answered with one
+// error frame, or -- only if it cannot be decoded -- dropped. In particular a
+// request that meets a closing connection is refused, never silently dropped.
+//@ func (c *Connection) handleCallReq(frame *Frame) (release bool)
+//@   nosafety
+//@   requires c.inbound != nil && MexSetOK(c.inbound) && FrameFull(frame) && frame.Header.size >= 16
+//@   modifies all
+//@   label refused-not-dropped
+//@   ensures release && !decodefails(frame) ==> errAttempts(c) == old(errAttempts(c)) + 1
+//@   label dispatched-without-error-frame
+//@   ensures !release ==> errAttempts(c) == old(errAttempts(c))
+//@   property C07 C20
